@@ -894,6 +894,122 @@ func vfSrvFlood(kind string, count int, firstID uint32) []byte {
 	return buf.Bytes()
 }
 
+// vfSrvReqBlock is the HPACK block of a small valid request.
+func vfSrvReqBlock(enc *hpack.Encoder, hb *bytes.Buffer, id uint32) []byte {
+	hb.Reset()
+	for _, kv := range [][2]string{{":method", "GET"}, {":scheme", "https"}, {":authority", "dummy.tld"}, {":path", "/s" + strconv.Itoa(int(id))}, {"x-pad", "0123456789"}} {
+		enc.WriteField(hpack.HeaderField{Name: kv[0], Value: kv[1]})
+	}
+	return append([]byte(nil), hb.Bytes()...)
+}
+
+var vfSrvUnknown = []FrameType{0x0a, 0x0b, 0x0f, 0x11, 0x12, 0x7f, 0xbe, 0xff}
+
+// vfSrvInterrupted builds a session in which an open header block (HEADERS, possibly CONTINUATION,
+// without END_HEADERS) is followed by something that is not its CONTINUATION: a frame of an
+// unknown / unassigned type, any known frame type, CONTINUATION on another stream, a zero-length
+// frame, or the end of the input; the rest of the block follows.
+func vfSrvInterrupted(rnd *rand.Rand, tn int) []byte {
+	var buf, hb bytes.Buffer
+	fr := NewFramer(&buf, nil)
+	enc := hpack.NewEncoder(&hb)
+	if rnd.Intn(8) != 0 {
+		fr.WriteSettings()
+	}
+	id := uint32(1)
+	if rnd.Intn(2) == 0 { // a complete request first: stream 1 exists / is closed
+		fr.WriteHeaders(HeadersFrameParam{StreamID: id, BlockFragment: vfSrvReqBlock(enc, &hb, id), EndStream: true, EndHeaders: true})
+		if rnd.Intn(2) == 0 {
+			fr.WriteRSTStream(id, ErrCodeCancel)
+		}
+		id += 2
+	}
+	blk := vfSrvReqBlock(enc, &hb, id)
+	cut := 1 + rnd.Intn(len(blk)-2)
+	fr.WriteHeaders(HeadersFrameParam{StreamID: id, BlockFragment: blk[:cut], EndStream: rnd.Intn(2) == 0, EndHeaders: false})
+	rest := blk[cut:]
+	if rnd.Intn(3) == 0 && len(rest) > 1 { // the block is already in its CONTINUATION part
+		fr.WriteContinuation(id, false, rest[:1])
+		rest = rest[1:]
+	}
+	other := []uint32{0, 1, id, id + 2, id + 4}[rnd.Intn(5)]
+	k := rnd.Intn(24)
+	if tn%2 == 0 {
+		k = rnd.Intn(len(vfSrvUnknown)+1) // every second scenario interrupts with an unknown type
+	}
+	switch {
+	case k < len(vfSrvUnknown):
+		fr.WriteRawFrame(vfSrvUnknown[k], Flags(rnd.Intn(256)), other, make([]byte, rnd.Intn(12)))
+	case k == 8:
+		fr.WriteRawFrame(FrameType(0x10), 0, 0, []byte{0, 0, 0, byte(id), 'u', '=', '1'}) // PRIORITY_UPDATE
+	case k == 9:
+		fr.WriteData(other|1, false, []byte("x"))
+	case k == 10:
+		fr.WriteHeaders(HeadersFrameParam{StreamID: id + 2, BlockFragment: []byte{0x82}, EndHeaders: true})
+	case k == 11:
+		fr.WritePriority(other|1, PriorityParam{StreamDep: 0, Weight: 1})
+	case k == 12:
+		fr.WriteRSTStream(other|1, ErrCodeCancel)
+	case k == 13:
+		fr.WriteSettings()
+	case k == 14:
+		fr.WriteRawFrame(FramePushPromise, 4, id, []byte{0, 0, 0, 2, 0x82})
+	case k == 15:
+		fr.WritePing(false, [8]byte{9, 9, 9})
+	case k == 16:
+		fr.WriteGoAway(0, ErrCodeNo, nil)
+	case k == 17:
+		fr.WriteWindowUpdate(other, 10)
+	case k == 18:
+		fr.WriteContinuation(id+2, true, rest) // CONTINUATION on another stream
+	case k == 19:
+		fr.WriteRawFrame(FrameData, 0, other, nil) // zero-length frames
+	case k == 20:
+		fr.WriteRawFrame(vfSrvUnknown[rnd.Intn(len(vfSrvUnknown))], 0, other, nil)
+	case k == 21:
+		fr.WriteSettingsAck()
+	case k == 22:
+		return buf.Bytes() // EOF inside the header block
+	default:
+		fr.WriteRawFrame(FrameContinuation, 0, id, nil) // empty CONTINUATION, then an unknown type
+		fr.WriteRawFrame(vfSrvUnknown[rnd.Intn(len(vfSrvUnknown))], 0, id, []byte{1})
+	}
+	fr.WriteContinuation(id, true, rest)
+	if rnd.Intn(2) == 0 {
+		fr.WritePing(false, [8]byte{4, 2})
+	}
+	return buf.Bytes()
+}
+
+// vfSrvUnknownTypes puts frames of unknown / unassigned types where no header block is open:
+// before the first SETTINGS, on stream 0, on idle, open and closed streams.
+func vfSrvUnknownTypes(rnd *rand.Rand, tn int) []byte {
+	var buf, hb bytes.Buffer
+	fr := NewFramer(&buf, nil)
+	enc := hpack.NewEncoder(&hb)
+	unk := func(id uint32) {
+		fr.WriteRawFrame(vfSrvUnknown[rnd.Intn(len(vfSrvUnknown))], Flags(rnd.Intn(256)), id, make([]byte, rnd.Intn(20)))
+	}
+	if tn%3 == 0 {
+		unk(uint32(rnd.Intn(2))) // before SETTINGS
+	}
+	fr.WriteSettings()
+	unk(0)
+	unk(1) // idle stream
+	fr.WriteHeaders(HeadersFrameParam{StreamID: 1, BlockFragment: vfSrvReqBlock(enc, &hb, 1), EndStream: rnd.Intn(2) == 0, EndHeaders: true})
+	unk(1) // open / half-closed stream
+	fr.WriteRSTStream(1, ErrCodeCancel)
+	unk(1) // closed stream
+	unk(2)
+	unk(99)
+	fr.WriteHeaders(HeadersFrameParam{StreamID: 3, BlockFragment: vfSrvReqBlock(enc, &hb, 3), EndStream: true, EndHeaders: true})
+	for i := rnd.Intn(30); i > 0; i-- {
+		unk(uint32(rnd.Intn(6)))
+	}
+	fr.WritePing(false, [8]byte{7})
+	return buf.Bytes()
+}
+
 // vfSrvInSync reports whether a client byte stream ends on a frame boundary and outside a header
 // block, i.e. whether one more frame written by the client would be read as a frame at all.
 func vfSrvInSync(b []byte) bool {
@@ -934,7 +1050,8 @@ func vfSrvHostile(tb testing.TB, env *vfEnv, tn int, rnd *rand.Rand) {
 		s.PingTimeout = 2 * time.Second
 	})
 	defer d.teardown()
-	mode := []string{"mutate", "mutate", "random", "random-nopreface", "flood", "flood", "continuation", "mutate-noread"}[rnd.Intn(8)]
+	mode := []string{"mutate", "mutate", "random", "random-nopreface", "flood", "flood", "continuation", "mutate-noread",
+		"hdrblock", "hdrblock", "unknown-pos"}[rnd.Intn(11)]
 	d.emit(map[string]any{"e": "hdr", "adv": adv, "maxq": VfSrvMaxQueuedControlFrames, "mode": mode,
 		"idle_ms": int(idle / time.Millisecond), "readidle_ms": int(readIdle / time.Millisecond)})
 
@@ -943,11 +1060,16 @@ func vfSrvHostile(tb testing.TB, env *vfEnv, tn int, rnd *rand.Rand) {
 		if len(b) == 0 {
 			return
 		}
+		pre := b
 		if what != "preface" {
 			all = append(all, b...)
+			pre = all // the frame reader's state (header block in progress, HPACK) spans the chunks
 		}
 		n := 0
-		if p := vfCatch(func() { n = VfSrvPreflight(b) }); p != "" {
+		if env.Bool("no_preflight", false) { // (testing the crash path of the framework only)
+			pre = nil
+		}
+		if p := vfCatch(func() { n = VfSrvPreflight(pre) }); p != "" {
 			d.emit(map[string]any{"e": "panic", "what": "frame reader: " + p})
 			return
 		}
@@ -1029,6 +1151,10 @@ func vfSrvHostile(tb testing.TB, env *vfEnv, tn int, rnd *rand.Rand) {
 			sent += n
 			quiesce()
 		}
+	case "hdrblock":
+		send("interrupted-header-block", vfSrvInterrupted(rnd, tn))
+	case "unknown-pos":
+		send("unknown-frame-types", vfSrvUnknownTypes(rnd, tn))
 	case "continuation":
 		var pre bytes.Buffer
 		fr := NewFramer(&pre, nil)
